@@ -142,6 +142,11 @@ namespace vw
             auto *v = s->as<ob::RealVectorStateSpace::StateType>()->values;
             v[0] = x;
             v[1] = y;
+            if (sp->getDimension() == 4)  // "R4pin": a free third coordinate in [0,1] and a coordinate pinned to 0.5
+            {
+                v[2] = 0.5 + 0.15 * yaw;
+                v[3] = 0.5;
+            }
         }
         else
         {
@@ -361,7 +366,21 @@ namespace vw
         }
         Problem(const Cfg &c) : cfg(c), map(mapByName(c.map)), lat(map, c.space != "R2")
         {
-            if (c.space == "R2" || c.space == "R2count")
+            if (c.space == "R4pin")
+            {
+                // R^4 with a zero-extent dimension (a locked joint): dimension > 2 selects the random linear default projection
+                auto r = std::make_shared<ob::RealVectorStateSpace>(4);
+                ob::RealVectorBounds b(4);
+                b.setLow(0);
+                b.setHigh(0, map.W());
+                b.setHigh(1, map.H());
+                b.setHigh(2, 1.0);
+                b.setLow(3, 0.5);
+                b.setHigh(3, 0.5);
+                r->setBounds(b);
+                space = r;
+            }
+            else if (c.space == "R2" || c.space == "R2count")
             {
                 std::shared_ptr<ob::RealVectorStateSpace> r;
                 if (c.space == "R2count")
